@@ -279,7 +279,7 @@ GAMMA_EXTRA = [
 
 def run_C05(ctx):
     extra = [{"id": f"x{i}", "f": f} for i, f in enumerate(GAMMA_EXTRA)]
-    cov, viol, _, _ = generic_formula_check(ctx, "gamma", "formula", 260, 4000, 2, 3, lambda r: [r["f"]], "C05", extra,
+    cov, viol, _, _ = generic_formula_check(ctx, "gamma", "formula", 260, 1500, 2, 3, lambda r: [r["f"]], "C05", extra,
                                             rule_text=FORMULA_RULE)
     return V.finish(ctx, "translation_validation", cov, viol, TV_ASSUME)
 
@@ -314,7 +314,7 @@ SUBST_EXTRA = [
 
 def run_C17(ctx):
     extra = [{"id": f"x{i}", "f": f, "var": v, "term": t} for i, (f, v, t) in enumerate(SUBST_EXTRA)]
-    cov, viol, _, _ = generic_formula_check(ctx, "subst", "subst", 320, 5000, 2, 3,
+    cov, viol, _, _ = generic_formula_check(ctx, "subst", "subst", 320, 2500, 2, 3,
                                             lambda r: [r["f"], r["out"], r["term"]], "C17", extra, rule_text=FORMULA_RULE)
     return V.finish(ctx, "translation_validation", cov, viol, TV_ASSUME)
 
